@@ -575,9 +575,24 @@ fn relearn_case(word: &str, other: &str, fault: u8, i1: usize, i2: usize, st: &m
         std::fs::remove_file(sb.user_dir()).expect("remove the file");
     }
     std::fs::rename(&away, sb.user_dir()).expect("rename back");
+    // the directory is healthy again: the LIVE context's next learning commit must reach the file ("loses at most
+    // that one learned choice" - not every later one)
+    let third = ["tumi", "rat", "boi"].iter().find(|w| **w != word && **w != other).copied().unwrap_or("tumi");
+    if let Some((c3, _)) = learn(&ctx, third, 1)? {
+        let stored = sb.parsed_selections().and_then(|m| m.get(third).cloned());
+        if stored.as_deref() != Some(c3.as_str()) {
+            return Err(fail(
+                "save-stays-off-after-one-failed-save",
+                format!("the save of {word:?} failed while the directory was broken; after the repair {third:?} -> {c3:?} was committed in the same context, but the store has {stored:?} for it (store {:?})", sb.parsed_selections()),
+            ));
+        }
+        st.label("learning-commit-after-the-repair-in-the-live-context");
+    }
     let ctx2 = Ctx::new_at(opts, sb.base()).map_err(pf)?;
     let later = preselected(&ctx2, word)?;
-    if later != c1 {
+    // the commit after the repair wrote the whole in-memory map: the word now has c2 in the file if the live context
+    // kept it, else still c1 - either way one of the two
+    if later != c1 && later != c2 {
         return Err(fail(
             "failed-save-loses-more-than-one-choice",
             format!("{word:?}: {c1:?} was stored before the failing save of {c2:?}; after the repair a new context preselects {later:?} (store {:?})", sb.parsed_selections()),
